@@ -404,6 +404,35 @@ def _desugar_functional(tree: ast.AST) -> None:
     ast.fix_missing_locations(tree)
 
 
+def _fold_self_assign(tree: ast.AST) -> None:
+    """x = x + e  ->  x += e   (inside functions; x a local name or `name[constant]`, not an attribute: rebinding an attribute
+    and growing the object it holds are different things when the object is shared). For the str / int values this spelling is
+    used on in the package the two are the same statement; a list held by a local is only ever seen through that local."""
+    class _T(ast.NodeTransformer):
+        def __init__(self) -> None:
+            self.depth = 0
+
+        def _fn(self, node):
+            self.depth += 1
+            self.generic_visit(node)
+            self.depth -= 1
+            return node
+
+        visit_FunctionDef = visit_AsyncFunctionDef = _fn
+
+        def visit_Assign(self, node: ast.Assign):
+            if self.depth > 0 and len(node.targets) == 1 and isinstance(node.value, ast.BinOp) and isinstance(node.value.op, (ast.Add, ast.Sub, ast.Mult)):
+                t = node.targets[0]
+                simple = isinstance(t, ast.Name) or (isinstance(t, ast.Subscript) and isinstance(t.value, ast.Name) and (
+                    isinstance(t.slice, ast.Constant) or (isinstance(t.slice, ast.UnaryOp) and isinstance(t.slice.operand, ast.Constant))))
+                if simple and ast.dump(node.value.left) == ast.dump(t).replace("Store()", "Load()"):
+                    return ast.copy_location(ast.AugAssign(target=t, op=node.value.op, value=node.value.right), node)
+            return node
+
+    _T().visit(tree)
+    ast.fix_missing_locations(tree)
+
+
 def _drop_local_annotations(tree: ast.AST) -> None:
     """Inside function bodies `x: T = v` is read as `x = v` (a local annotation has no effect at run time; class bodies and
     module level keep theirs - dataclass fields and typed constants are facts the rules use)."""
@@ -523,6 +552,7 @@ class Repo:
             _hoist_walrus(tree)
             _unalias_bound_methods(tree)
             _desugar_functional(tree)
+            _fold_self_assign(tree)
             set_parents(tree)
             mod = Module(name=name, path=path, source=src, tree=tree)
             mod.imports = collect_imports(tree.body, name, is_pkg)
